@@ -29,15 +29,17 @@ open Modbus Modbus.Locking
 def convKind : Gen.ActKind → AK
   | .acq => .acq | .rel => .rel | .rd => .rd | .wr => .wr | .call => .call | .go => .go
 
-def conv (a : Gen.Act) : Act := ⟨convKind a.kind, a.name⟩
+/-- methods keep their full key `ModbusClient.m`; the targets of `call`/`go` get the prefix too -/
+def conv (a : Gen.Act) : Act := ⟨convKind a.kind, qualify "ModbusClient." (convKind a.kind) a.name⟩
 
-/-- the translator's tables for `ModbusClient`, prefix stripped, with the `held` flags -/
+/-- the translator's tables for `ModbusClient` (keys "ModbusClient.…"), with the `held` flags -/
 def clientRaw : List (String × List Gen.Act) := selectType "ModbusClient." Gen.accessTables
 
 def clientProg : Program := clientRaw.map (fun p => (p.1, p.2.map conv))
 
-/-- exported methods: name starts with an upper-case letter -/
-def clientPublic : List String := (clientProg.map (·.1)).filter isExported
+/-- exported methods: the name after "ModbusClient." starts with an upper-case letter -/
+def clientPublic : List String :=
+  (clientProg.map (·.1)).filter (isExportedAfter "ModbusClient.")
 
 /-- `NewClient` is a function, not a method: no constructor in the table -/
 def clientCtors : List String := []
@@ -95,19 +97,19 @@ theorem C08_mutable_fields :
 /-- the entry points: the 35 exported methods; the client spawns no goroutines -/
 theorem C08_entries :
     entries clientProg clientPublic =
-      ["Close", "Open", "ReadBytes", "ReadCoil", "ReadCoils", "ReadDiscreteInput",
-       "ReadDiscreteInputs", "ReadFloat32", "ReadFloat32s", "ReadFloat64", "ReadFloat64s",
-       "ReadRawBytes", "ReadRegister", "ReadRegisters", "ReadUint32", "ReadUint32s", "ReadUint64",
-       "ReadUint64s", "SetEncoding", "SetUnitId", "WriteBytes", "WriteCoil", "WriteCoils",
-       "WriteFloat32", "WriteFloat32s", "WriteFloat64", "WriteFloat64s", "WriteRawBytes",
-       "WriteRegister", "WriteRegisters", "WriteUint32", "WriteUint32s", "WriteUint64",
-       "WriteUint64s"] := by
+      ["ModbusClient.Close", "ModbusClient.Open", "ModbusClient.ReadBytes", "ModbusClient.ReadCoil", "ModbusClient.ReadCoils", "ModbusClient.ReadDiscreteInput",
+       "ModbusClient.ReadDiscreteInputs", "ModbusClient.ReadFloat32", "ModbusClient.ReadFloat32s", "ModbusClient.ReadFloat64", "ModbusClient.ReadFloat64s",
+       "ModbusClient.ReadRawBytes", "ModbusClient.ReadRegister", "ModbusClient.ReadRegisters", "ModbusClient.ReadUint32", "ModbusClient.ReadUint32s", "ModbusClient.ReadUint64",
+       "ModbusClient.ReadUint64s", "ModbusClient.SetEncoding", "ModbusClient.SetUnitId", "ModbusClient.WriteBytes", "ModbusClient.WriteCoil", "ModbusClient.WriteCoils",
+       "ModbusClient.WriteFloat32", "ModbusClient.WriteFloat32s", "ModbusClient.WriteFloat64", "ModbusClient.WriteFloat64s", "ModbusClient.WriteRawBytes",
+       "ModbusClient.WriteRegister", "ModbusClient.WriteRegisters", "ModbusClient.WriteUint32", "ModbusClient.WriteUint32s", "ModbusClient.WriteUint64",
+       "ModbusClient.WriteUint64s"] := by
   decide +kernel
 
 /-- C3 — the translator's `held` flag equals the simulated holding state at every action of every
     public method (calls inlined; every call returns in the holding state it was made in) -/
 theorem C08_held_flags_agree :
-    (clientRaw.filter (fun p => isExported p.1)).all
+    (clientRaw.filter (fun p => isExportedAfter "ModbusClient." p.1)).all
       (fun p => heldAgrees clientProg fuel false (p.2.map (fun a => (conv a, a.held)))) = true := by
   decide +kernel
 
@@ -163,24 +165,24 @@ def withBody (prog : Program) (m : String) (body : List Act) : Program :=
     helper returned, i.e. outside the mutex — rejected -/
 example :
     disciplineOk
-      (withBody clientProg "ReadRegisters" [⟨.call, "readRegisters"⟩, ⟨.rd, "endianness"⟩])
+      (withBody clientProg "ModbusClient.ReadRegisters" [⟨.call, "ModbusClient.readRegisters"⟩, ⟨.rd, "endianness"⟩])
       clientPublic clientCtors fuel = false := by
   decide +kernel
 
 /-- … and the checker names the offender: exactly `ReadRegisters` and its caller `ReadRegister` fail -/
 example :
-    let prog := withBody clientProg "ReadRegisters" [⟨.call, "readRegisters"⟩, ⟨.rd, "endianness"⟩]
+    let prog := withBody clientProg "ModbusClient.ReadRegisters" [⟨.call, "ModbusClient.readRegisters"⟩, ⟨.rd, "endianness"⟩]
     (entries prog clientPublic).filter
       (fun m => !entryOk (mutableFields prog clientCtors) (entrySteps prog fuel m)) =
-      ["ReadRegister", "ReadRegisters"] := by
+      ["ModbusClient.ReadRegister", "ModbusClient.ReadRegisters"] := by
   decide +kernel
 
 /-- (b) a method that locks twice (calls a locking helper with the mutex held: self-deadlock) —
     rejected -/
 example :
     disciplineOk
-      (withBody clientProg "SetUnitId"
-        [⟨.acq, "lock"⟩, ⟨.call, "encoding"⟩, ⟨.wr, "unitId"⟩, ⟨.rel, "lock(deferred)"⟩])
+      (withBody clientProg "ModbusClient.SetUnitId"
+        [⟨.acq, "lock"⟩, ⟨.call, "ModbusClient.encoding"⟩, ⟨.wr, "unitId"⟩, ⟨.rel, "lock(deferred)"⟩])
       clientPublic clientCtors fuel = false := by
   decide +kernel
 
@@ -189,14 +191,14 @@ example : entryOk clientMutable [.acq, .acq, .wr "unitId", .rel] = false := by d
 /-- a forgotten unlock, an unknown callee, and too little fuel are rejected too -/
 example : entryOk clientMutable [.acq, .wr "unitId"] = false := by decide +kernel
 example :
-    disciplineOk (withBody clientProg "SetUnitId" [⟨.call, "noSuchMethod"⟩])
+    disciplineOk (withBody clientProg "ModbusClient.SetUnitId" [⟨.call, "ModbusClient.noSuchMethod"⟩])
       clientPublic clientCtors fuel = false := by
   decide +kernel
 example : disciplineOk clientProg clientPublic clientCtors 2 = false := by decide +kernel
 
 /-- what an entry looks like after inlining -/
 example :
-    entrySteps clientProg fuel "ReadUint32" =
+    entrySteps clientProg fuel "ModbusClient.ReadUint32" =
       [.acq, .rd "endianness", .rd "wordOrder", .rel,
        .acq, .rd "unitId", .rd "logger", .rd "logger", .rd "logger", .rd "logger",
        .rd "transport", .wr "transport!", .rd "logger", .rel] := by
@@ -205,7 +207,7 @@ example :
 /-- the hypotheses of T1 are satisfiable, and `run` computes: two goroutines, one in `SetEncoding`,
     one in `ReadUint32`; thread 1 gets the mutex first, thread 0's `acq` is disabled until thread 1
     released it. -/
-def exState : State := initState clientProg fuel [["SetEncoding"], ["ReadUint32"]]
+def exState : State := initState clientProg fuel [["ModbusClient.SetEncoding"], ["ModbusClient.ReadUint32"]]
 
 example : exState.holder = none ∧
     ∀ t ∈ exState.threads, t.holding = false ∧ wellLocked clientMutable false t.todo = true := by
